@@ -8,6 +8,9 @@ for d in seeded/*/; do
   checks=$(python3 -c "import json;print(' '.join(json.load(open('$d/meta.json'))['checks']))")
   if ! git -C "$VERIF_REPO" apply --check "$ROOT/${d}patch.diff" 2>/dev/null; then echo "$id: PATCH-DOES-NOT-APPLY"; continue; fi
   git -C "$VERIF_REPO" apply "$ROOT/${d}patch.diff"
+  if ! ( cd "$VERIF_REPO" && go build ./... ) >/dev/null 2>&1; then
+    git -C "$VERIF_REPO" apply -R "$ROOT/${d}patch.diff"; echo "$id: PATCHED-TREE-DOES-NOT-BUILD (re-base the patch)"; continue
+  fi
   res=""
   for c in $checks; do
     out=$(./check $c 2>&1); rc=$?
